@@ -24,6 +24,8 @@ import (
 type sysScenario struct {
 	ID      int         `json:"id"`
 	Filters []c06Filter `json:"filters"`
+	// LingerS: keep the server running this many seconds between the connections (a heartbeat is due every 30 s)
+	LingerS int `json:"linger_s,omitempty"`
 }
 
 type sysConn struct {
@@ -127,6 +129,9 @@ func sysRun(sc sysScenario) (lines []map[string]interface{}, fileLines []map[str
 		// one connection at a time: let its events arrive before the next one connects
 		hub.WaitQuiet(60*time.Millisecond, 2*time.Second)
 		_ = mark
+		if sc.LingerS > 0 && i == 2 {
+			time.Sleep(time.Duration(sc.LingerS) * time.Second)
+		}
 	}
 	// also a connection to a port nobody serves
 	if cl, err := srv.mem.DialTCP(tcpAddr("127.0.0.1", 9999), tcpAddr(fmt.Sprintf("10.200.%d.9", sc.ID%250), 4009)); err == nil {
@@ -143,9 +148,6 @@ func sysRun(sc sysScenario) (lines []map[string]interface{}, fileLines []map[str
 		if pos[e.Chan] == nil {
 			continue
 		}
-		if e.Map["category"] == "heartbeat" {
-			continue
-		}
 		count[e.Chan]++
 		pos[e.Chan][e.raw] = append(pos[e.Chan][e.raw], count[e.Chan])
 	}
@@ -153,7 +155,20 @@ func sysRun(sc sysScenario) (lines []map[string]interface{}, fileLines []map[str
 	emittedAccept := map[int]bool{}
 	routed := []string{"http", "telnet", "ftp", "redis", "boom", "http"}
 	for _, e := range all {
-		if e.Chan != "all" || e.Map["category"] == "heartbeat" {
+		if e.Chan != "all" {
+			continue
+		}
+		if e.Map["category"] == "heartbeat" {
+			tok, _ := e.Map["token"].(string)
+			p := map[string][]int{}
+			for _, ch := range []string{"a", "b", "all"} {
+				p[ch] = pos[ch][e.raw]
+				if p[ch] == nil {
+					p[ch] = []int{}
+				}
+			}
+			seq, _ := e.Map["sequence"].(int)
+			lines = append(lines, map[string]interface{}{"k": "heartbeat", "seq": seq, "token": tok, "pos": p, "proj": sysProject(e.Map)})
 			continue
 		}
 		src := fmt.Sprint(e.Map["source-ip"])
@@ -212,9 +227,6 @@ func sysRun(sc sysScenario) (lines []map[string]interface{}, fileLines []map[str
 			fileLines = append(fileLines, map[string]interface{}{"corrupt": ln})
 			continue
 		}
-		if m["category"] == "heartbeat" {
-			continue
-		}
 		fileLines = append(fileLines, sysProject(m))
 	}
 	return lines, fileLines, ""
@@ -224,7 +236,7 @@ func sysRun(sc sysScenario) (lines []map[string]interface{}, fileLines []map[str
 // protocol field that tells events of one connection apart
 func sysProject(m map[string]interface{}) map[string]interface{} {
 	p := map[string]interface{}{}
-	for _, k := range []string{"category", "type", "source-ip", "token", "ftp.command", "telnet.command", "http.url", "redis.command", "telnet.username", "telnet.password"} {
+	for _, k := range []string{"category", "type", "source-ip", "token", "sequence", "ftp.command", "telnet.command", "http.url", "redis.command", "telnet.username", "telnet.password"} {
 		if v, ok := m[k]; ok {
 			p[k] = fmt.Sprint(v)
 		}
